@@ -12,11 +12,15 @@ mod c04;
 mod c05;
 mod c06;
 mod c07;
+mod c08;
+mod c09;
+mod c10;
 mod c11;
 mod c12;
 mod c13;
 mod c16;
 mod c17;
+mod c18;
 mod gens;
 mod cmp;
 mod exec;
@@ -33,6 +37,10 @@ use std::time::Instant;
 fn dispatch_for(id: &str) -> Option<fn(&str, &serde_json::Value) -> Option<Outcome>> {
     Some(match id {
         "C04" => c04::dispatch,
+        "C08" => c08::dispatch,
+        "C09" => c09::dispatch,
+        "C18" => c18::dispatch,
+        "C10" => c10::dispatch,
         "C11" => c11::dispatch,
         "C12" => c12::dispatch,
         "C17" => c17::dispatch,
@@ -51,6 +59,10 @@ fn dispatch_for(id: &str) -> Option<fn(&str, &serde_json::Value) -> Option<Outco
 fn run_check(ctx: &Ctx) -> i32 {
     match ctx.property.as_str() {
         "C04" => c04::run(ctx),
+        "C08" => c08::run(ctx),
+        "C09" => c09::run(ctx),
+        "C18" => c18::run(ctx),
+        "C10" => c10::run(ctx),
         "C11" => c11::run(ctx),
         "C12" => c12::run(ctx),
         "C17" => c17::run(ctx),
